@@ -10,7 +10,7 @@ def tied (item : String) : Bool := !(item.startsWith "str:") && !(item.startsWit
     and indices that a rewrite easily adds): what a special case for one particular input is made of — and the
     names of external functions / methods the module calls (`call:` items, presence only; iterator and Option plumbing excluded):
     what a change of meaning without any new branch is made of. -/
-def comparison (item : String) : Bool := item == "==" || item == "!=" || item == "<=" || item == ">=" || item.startsWith "lit:" || item.startsWith "call:" || item == "conv:as"
+def comparison (item : String) : Bool := item == "==" || item == "!=" || item == "<=" || item == ">=" || item.startsWith "lit:" || item.startsWith "call:" || item == "conv:as" || item == "letelse"
 
 /-- within module `m`, every construct / literal of `g` selected by `sel` occurs in `p` at least as often. -/
 def coveredBy (sel : String → Bool) (m : String) (g p : List (String × String × Nat)) : Bool :=
